@@ -94,6 +94,39 @@ func NewEVMCtrler(path string, acctHandler ctrlertypes.IAccountHandler, logger t
 	}
 }
 
+// RollbackTo makes the record of the last EVM block under `path` point at `height` again,
+// when a commit that was interrupted after the EVM state had been written left it one block ahead.
+// The state root of every height stays recorded, so only the pointer has to move.
+func RollbackTo(path string, height int64) xerrors.XError {
+	metadb, err := tmdb.NewDB("heightRootHash", "goleveldb", path)
+	if err != nil {
+		return xerrors.From(err)
+	}
+	defer func() { _ = metadb.Close() }()
+
+	val, err := metadb.Get(lastBlockHeightKey)
+	if err != nil {
+		return xerrors.From(err)
+	}
+	if val == nil {
+		return nil
+	}
+	bn, err := strconv.ParseInt(string(val), 10, 64)
+	if err != nil {
+		return xerrors.From(err)
+	}
+	if bn <= height {
+		return nil
+	}
+	if bn != height+1 {
+		return xerrors.NewOrdinary("the EVM state is more than one block ahead of the last committed block")
+	}
+	if height == 0 {
+		return xerrors.From(metadb.DeleteSync(lastBlockHeightKey))
+	}
+	return xerrors.From(metadb.SetSync(lastBlockHeightKey, []byte(strconv.FormatInt(height, 10))))
+}
+
 func (ctrler *EVMCtrler) InitLedger(req interface{}) xerrors.XError {
 	// Handle `lastRoot` at here
 	return nil
